@@ -413,7 +413,8 @@ def _seat_session_state(conn: Obj) -> None:
     m = prog.modules.get("conn")
     if m is None:
         return
-    props = [a for a in CTX_STATE if (f_ := m.functions.get(f"FakeSnowflakeConnection.{a}")) is not None and is_property(f_)]
+    props = [a for a in (*CTX_STATE, "db_path", "nop_regexes", R().paramstyle)
+             if (f_ := m.functions.get(f"FakeSnowflakeConnection.{a}")) is not None and is_property(f_)]
     if not props:
         return
     sandbox = _I(prog, _H(), [])
@@ -426,6 +427,23 @@ def _seat_session_state(conn: Obj) -> None:
             from .values import Func as _F
             sandbox.call_func(_F("conn", f"FakeSnowflakeConnection.{a}.setter", setter, self_val=conn), [v], {}, None)
     sandbox.refresh_properties(conn, props)
+
+
+def cset(conn: Obj, name: str, value) -> None:
+    """conn.<name> = value, the way a caller's assignment would do it: through the property setter when the class keeps the value
+    behind one (an options record, a session-state object), else as a plain attribute."""
+    from .interp import Hooks as _H, Interp as _I
+    from .model import Program, is_property
+    from .values import Func as _F
+    prog = _PROG if _PROG is not None else Program()
+    m = prog.modules.get("conn")
+    fget = m.functions.get(f"FakeSnowflakeConnection.{name}") if m is not None else None
+    setter = m.functions.get(f"FakeSnowflakeConnection.{name}.setter") if m is not None else None
+    if fget is not None and is_property(fget) and setter is not None:
+        conn.attrs.pop(name, None)
+        _I(prog, _H(), []).call_func(_F("conn", f"FakeSnowflakeConnection.{name}.setter", setter, self_val=conn), [value], {}, None)
+    else:
+        conn.attrs[name] = value
 
 
 def refresh_context(I, conn: Obj) -> None:
@@ -558,8 +576,8 @@ def run_execute(prog: Program, kind: str, mode: str | None, params=None, paramst
 
     def run(I: Interp):
         duck, conn, cur = make_session()
-        conn.attrs[R().paramstyle] = Const(paramstyle)
-        conn.attrs["nop_regexes"] = nop_regexes if nop_regexes is not None else Const(None)
+        cset(conn, R().paramstyle, Const(paramstyle))
+        cset(conn, "nop_regexes", nop_regexes if nop_regexes is not None else Const(None))
         if variables:
             define_variables(conn, variables)
         sset(cur, "sqlstate", Const(old_sqlstate))
